@@ -16,12 +16,14 @@ CLAIMS = {
                   'move/complement analysis; sibling pairing of the transfer replacement',
         text='Decides the partition mechanism: fresh proposals are met with NOT contains() of '
              'every later bound (slice arithmetic evaluated for 1..6 bounds and every index incl. '
-             '-1) before anything is returned; when a bound is appended every earlier shell is '
-             'split by contains() of the newest bound on its own points, rows moving with one '
-             'mask and staying with its complement; transfer candidates re-enter only the newest '
-             'shell, replacing proposals of the same provenance, each at most once; rows are '
-             'stored under the shell they were drawn for; proposals come from unit-cube '
-             'restricted bounds and the phase shift is closed on [0,1).',
+             '-1, no early exit) before anything is returned; when a bound is appended every '
+             'earlier shell is split by contains() of the newest bound on its own points, rows '
+             'moving with one mask and staying with its complement; transfer candidates re-enter '
+             'only the newest shell, replacing proposals of the same provenance, each at most '
+             'once; shell_association picks the last containing bound; rows are stored under the '
+             'shell they were drawn for; what a bound returns lies inside it (selection before '
+             'cache, frames), proposals come from unit-cube restricted bounds, the phase shift is '
+             'closed on [0,1), and user code only ever sees copies of the stored points.',
         ref='DESIGN.md section 4 C01, rules M4 M5 L1 L2 L3 L4 A5 Q3 T8 M3 M6 F6', note=TRUST +
         ' contains() of each bound is numerically what it says (C07 leaf assumption).'),
     'C02': dict(
@@ -39,25 +41,30 @@ CLAIMS = {
         technique='lockstep path analysis (same mask / index / source on parallel arrays), '
                   'ordered-map and batch-axis lints on the evaluation path, copy-provenance rule',
         text='Decides the alignment clauses: on every bounded path of add_bound / add_samples / '
-             'posterior the point, log-likelihood and blob arrays undergo the same selections, '
-             'moves, extensions (old rows first) and repeats, from aligned sources (one '
-             'evaluate_likelihood call or one index into the transfer arrays); the pool map '
-             'preserves order; no operation can drop the batch axis for a one-row batch; the '
-             'prior only ever receives a fresh copy.',
+             'run / posterior the point, log-likelihood and blob arrays undergo the same '
+             'selections, moves, extensions (old rows first) and repeats, from aligned sources '
+             '(one evaluate_likelihood call or one index into the transfer arrays); log_l reaches '
+             'the store through packaging only (no value-changing call); the pool map preserves '
+             'order; no operation can drop the batch axis for a one-row batch; the prior only ever '
+             'receives a fresh copy; transfer candidates are consumed once; and the rows, the '
+             'transfer set and its consumed marks are rewritten by every checkpoint update and '
+             'restored into the attributes they came from.',
         ref='DESIGN.md section 4 C03, rules L1-L5 S1 F5 F7 A5 P4 P1 P2', note=TRUST +
         ' The user likelihood is assumed pure.'),
     'C05': dict(
         technique='effect analysis over the resolved call graph vs. key tables extracted from '
                   'write / write_shell_update / update / resume; CFG reachability for '
                   'layout-change => full-write',
-        text='Decides the persistence-completeness clauses: every persisted attribute that a '
-             'batch, a public setter or run() itself can modify is rewritten by the incremental '
-             'update or is followed by a full write before the next incremental one; the resume '
-             'block reads only keys the writer produces into the attribute they came from; the '
-             'bound updates cover the proposal caches and counters; the generator state is '
-             'rewritten after every batch; one seeded generator is plumbed to every object that '
-             'draws and there is no hidden nondeterminism source.  Bit-identity itself is not '
-             'decided.',
+        text='Decides the persistence-completeness clauses: every attribute the stepping code can '
+             'modify and later consult is written by the full writer; every persisted attribute '
+             'that a batch, a public setter or run() itself can modify is rewritten by the '
+             'incremental update on every path, or is followed by a full write before the next '
+             'incremental one (first batch included); bound updates cover proposal caches and '
+             'counters, nested; the resume block reads only keys the writer produces, into the '
+             'attribute they came from, in index order; the generator state is rewritten after '
+             'every batch; one seeded generator object is plumbed to every object that draws and '
+             'is never rebound afterwards; no hidden nondeterminism source.  Bit-identity itself is '
+             'not decided.',
         ref='DESIGN.md section 4 C05 and 10, rules P0 P1 P2 P4 P5 P6 F3 F4', note=TRUST +
         ' h5py round-trips values exactly; sklearn training is deterministic given its seed.'),
     'C06': dict(
@@ -75,12 +82,13 @@ CLAIMS = {
         technique='CFG path rules (validate-before-mutate, dominating uniqueness guard), '
                   'abstract evaluation of the category predicates of sibling classifiers',
         text='Decides the structural clauses: a rejected declaration cannot have modified the '
-             'prior (no protected write reaches a raise), every appended key passed a rejecting '
-             'membership test, keys and dists grow together exactly once per success, only '
-             'ValueError/TypeError are raised explicitly, links are declared and chain-resolved, '
-             'and dimensionality / unit_to_physical / physical_to_dictionary agree on free, fixed '
-             'and link entries with one forward coordinate counter.  The numerical clauses '
-             '(inverse CDF shape) are not decided.',
+             'prior (no protected write reaches a raise, nothing fallible after the first write), '
+             'every appended key passed a rejecting membership test, keys and dists grow together '
+             'exactly once per success, only ValueError/TypeError are raised explicitly, links '
+             'are declared and chain-resolved, the queries write no state (except caches that '
+             'add_parameter resets), and dimensionality / unit_to_physical / '
+             'physical_to_dictionary agree on free, fixed and link entries with one forward '
+             'coordinate counter.  The numerical clauses (inverse CDF shape) are not decided.',
         ref='DESIGN.md section 4 C15 and 10, rules T1 T1b T7 R1 L1p K1 A1 A1c F1p',
         note=TRUST),
 }
@@ -113,19 +121,24 @@ CLAIMS.update({
         text='Decides for the 8 persistable classes: reader keys are a subset of writer keys '
              'with matching kind and guard; each key is restored into the attribute it was '
              'written from; every attribute read by contains/sample/log_v/write/update/reset/'
-             'transform/predict is assigned on every path of compute/read/train; the classes a '
-             'reader can rebuild cover those the creating code can store; update() rewrites what '
-             'sample() mutates.',
+             'transform/predict is assigned on every path of compute/read/train; optional members '
+             'are restored under the predicate the constructor / writer uses; mutable state is '
+             'restored from the file, not re-derived; list members come back in index order; the '
+             'classes a reader can rebuild cover those the creating code can store; update() '
+             'rewrites, on every path, what sample() mutates; the network attribute sweep skips '
+             'only what is stored explicitly.',
         ref='DESIGN.md section 4 C09 and 10, rules P1-P5 P7 P8', note=TRUST +
         ' Exact array round-trip through HDF5 and the sklearn attribute sweep are trusted.'),
     'C10': dict(
         technique='who-may-call / who-may-write tables, CFG loop contract, def-use accounting',
         text='Decides: n_like is written only by evaluate_likelihood (once per call, by the '
-             'length of an order-preserving image of its argument); the likelihood is only '
-             'called there; run() evaluates only inside a loop guarded by the strict test '
-             'n_like < n_like_max, at most one batch per iteration, idle iterations are pure; '
-             'sample_shell returns exactly n_batch fresh rows; the success predicate is one '
-             'conjunction over explored / per-shell minimum / n_eff and is the returned value.',
+             'length of a per-point image of its argument or of the likelihood output); the '
+             'likelihood is only called there; run() evaluates only inside a loop guarded by the '
+             'strict test n_like < n_like_max, at most one batch per iteration and none in a nested '
+             'loop, idle iterations are pure; sample_shell returns exactly n_batch fresh rows; '
+             'the success predicate is one conjunction over explored / per-shell minimum / n_eff '
+             'and is the returned value; every evaluated point comes from a unit-cube restricted '
+             'bound through row selections and a shift that is closed on [0,1).',
         ref='DESIGN.md section 4 C10, rules F6 N1 T5 T8 M1 M3 M6', note=TRUST),
     'C11': dict(
         technique='effect (write/draw) summaries closed over the call graph; control-dependence '
@@ -143,19 +156,23 @@ CLAIMS.update({
         technique='control-dependence phase guards, who-may-write tables, extend-prefix lockstep '
                   'rule, primed-before-publish path rule',
         text='Decides: add_bound and every removal/filter of shell records happen only under '
-             '`not explored` and are followed by explored = True; explored is only ever set '
-             'True; rows are appended after the old ones; the discard setter recomputes every '
-             'shell as a pure function of stored arrays and flags, with no lazy sampling in '
-             'log_v (bounds are primed before publication); the flag is persisted by the '
+             '`not explored` (also through private helpers), in descending index order over '
+             'exactly the empty shells, followed by explored = True; explored is only ever set '
+             'True; run() applies its discard argument only at the transition; rows are appended '
+             'after the old ones; the exploration boundaries are recorded after the removal; the '
+             'discard setter recomputes every shell on every path as a pure function of stored '
+             'arrays and flags, with no lazy sampling in log_v; the flag is persisted by the '
              'incremental update.',
         ref='DESIGN.md section 4 C12, rules T6 F6 L1 L3 T3 T4 A2 A6 P4', note=TRUST),
     'C13': dict(
         technique='lockstep path analysis of the parallel per-ellipsoid records, '
                   'validate-before-mutate and post-dominance (cache reset) on CFGs',
         text='Decides: along every bounded path of split and trim the records bounds / '
-             'points_bounds / block change together (same deletion index, same number of '
-             'pushes), log_v_all is rebuilt afterwards, each pushed ellipsoid is computed from '
-             'the point set pushed at the same position, a refused operation has not touched '
+             'points_bounds / block change together (same deletion index, same pushes or the same '
+             'in-place replacement), log_v_all is rebuilt or maintained in lockstep, each pushed '
+             'ellipsoid is computed from the point set pushed at the same position, one flag per '
+             'new record with the same size rule as compute(), the refusal test compares the '
+             'children with the ellipsoid being split, a refused operation has not touched '
              'ellipsoids or points, and every change is followed by reset().',
         ref='DESIGN.md section 4 C13, rules L1 L1d L6 L0 T1 T9', note=TRUST),
     'C14': dict(
@@ -168,9 +185,12 @@ CLAIMS.update({
     'C16': dict(
         technique='abstract interpretation: interval domain with open/closed ends and float-mod '
                   'transfer function; linear-form comparison of forward and inverse shift',
-        text='Decides closure of [0,1) under PhaseShift.transform in both directions, that only '
-             'periodic columns are stored to, that the output is a fresh copy, and that forward '
-             'and inverse are opposite shifts.  Largest-gap placement is not decided.',
+        text='Decides closure of [0,1) under PhaseShift.transform in both directions (float '
+             'rounding of sums and remainders modelled), that only column periodic[i] is stored to '
+             'with centers[i], that the output is a fresh copy, that forward and inverse are '
+             'opposite shifts, and that the shift is applied forward on entry to contains() and '
+             'inverted exactly once on exit from sample(), also for pool workers.  Largest-gap '
+             'placement is not decided.',
         ref='DESIGN.md section 4 C16, rule M6', note=TRUST +
         ' float a % 1 is in [0,1) for a >= 0 and in [0,1] when a may be negative.'),
 })
